@@ -14,7 +14,8 @@ C12 line-protocol driver.
           (loads = how often any configuration was started)
       resp  = g:<tree|->:<etag path hex> | w | d:<tree> (/adapt) | r | amb | F<status>:<class>
             | ww (/load, 200 with adapter warnings) | dw:<tree> (/adapt with warnings)
-            | W200:<class> (/load: warnings written, then the load was rejected — the client reads 200)
+              (a rejected /load answers F<status>:<class> whatever the adapter warned about; the harness prints
+              W200:<class> if it meets the behaviour before /repo bbbf7b6: warnings first, status 200, error appended)
       ids   = for every distinct "@id" text in the config, sorted: <hex>=<resp of GET /id/<text>, etag path only>
   cas <k> <n>                 k concurrent clients × n conditional increments → `cas <k*n>`
   pull <tree T> <pulled: tree|!>
@@ -372,15 +373,15 @@ def stepDrv (d : Drv) (step : String) : Option Drv :=
       let ps := if loaded && (probeOf s'.running).isSome then probeOf s'.running else d.probeSaw
       -- unsyncedDecodeAndRun: `if allowPersist && newCfg != nil && persist not disabled` write cfgJSON
       let sv := if loaded && cfgOf s'.rawCfg != .null then some (cfgOf s'.rawCfg) else d.saved
-      -- adapter warnings: /adapt carries them in its answer; /load has written them (and with them the
-      -- status line 200) before caddy.Load ran (Warn.lean)
-      let warned := (path == loadPath || path == adaptPath) && warnsWritten drvEnv drvWarns req
-      let rs := if !warned then showResp isGet resp else
-        match resp with
-        | .okWrite => "ww"
-        | .okAdapt j => "dw:" ++ encTree j
-        | .fail f => "W200:" ++ showFail f
-        | r => showResp isGet r
+      -- adapter warnings: /adapt carries them in its answer; /load writes them once caddy.Load has
+      -- succeeded (Warn.lean) — a rejected load answers its error status whatever the adapter warned about
+      let rs :=
+        if path == adaptPath && adapterWarned drvEnv drvWarns req then
+          (match resp with
+            | .okAdapt j => "dw:" ++ encTree j
+            | r => showResp isGet r)
+        else if path == loadPath && warnsWritten drvEnv drvWarns req d.s then "ww"
+        else showResp isGet resp
       let line :=
         if hm == .get || hm == .other then showResp isGet resp
         else rs ++ "/" ++ encTree (cfgOf s'.rawCfg) ++ "/" ++ showIds s' ++ "/" ++
@@ -528,9 +529,7 @@ def handle : List String → String
 
 /-- counter-example lines replayed on the implementation on every run (see Witness.lean) -/
 def witnessLines : List String := [
-  "C12 hist P,2f636f6e6669672f,{61707073.{633132.{61.{62.#7#}612f62.{406964.s73.76.#1#}}}},-,-;G,2f69642f73,-,-,-",
-  -- rejected_load_is_reported_full_fails: {"reject":true,"warn":null} through the adapter: warnings, then the load fails
-  "C12 hist P,2f6c6f6164,{72656a656374.t7761726e.n},-,w"
+  "C12 hist P,2f636f6e6669672f,{61707073.{633132.{61.{62.#7#}612f62.{406964.s73.76.#1#}}}},-,-;G,2f69642f73,-,-,-"
 ]
 
 end CaddyModel.C12
